@@ -30,6 +30,34 @@ Proof.
   symmetry. now apply (fl_eqb A FL).
 Qed.
 
+(* ---------- division by a scalar: T / s and T /= s ---------- *)
+Lemma mapM_div_nz (l : list T) (s : T) : s <> zero ->
+  mapM (fun x => div x s) l = Ok (map (fun x => (x * inv s)%A) l).
+Proof.
+  intros H. induction l as [|x l IH]; [reflexivity|].
+  cbn [mapM map]. rewrite div_nz by exact H. cbn [bind]. rewrite IH. reflexivity.
+Qed.
+
+Lemma mapM_div_z (l : list T) : l <> [] -> mapM (fun x => div x zero) l = Panic DivZero.
+Proof. destruct l as [|x l]; [congruence|]. intros _. cbn [mapM]. now rewrite div_z. Qed.
+
+Lemma tdiv_spec_lemma (d : tridiag) (s : T) : wfT d ->
+  (s <> zero ->
+     exists c, tdiv d s = Ok c /\ tdiv_assign_s d s = Ok c /\ wfT c /\ tn c = tn d /\
+               forall i j, dense c i j = (dense d i j * inv s)%A) /\
+  (s = zero -> 1 <= tn d -> tdiv d s = Panic DivZero /\ tdiv_assign_s d s = Panic DivZero).
+Proof.
+  intros W. split.
+  - intros H. unfold tdiv, tdiv_assign_s, vdiv_scalar, vdiv. rewrite !mapM_div_nz by exact H. cbn [bind].
+    eexists; split; [reflexivity|]. split; [reflexivity|]. split; [apply wfT_map3; exact W|]. split; [reflexivity|].
+    intros i j. apply (dense_map3 (fun x => (x * inv s)%A)). ring.
+  - intros -> Hd. destruct W as (Hm & Hs & Hp). unfold tdiv, tdiv_assign_s, vdiv_scalar, vdiv.
+    assert (M : tmain d <> []) by (intros E; rewrite E in Hm; cbn in Hm; lia).
+    destruct (tsub d) as [|x l] eqn:Es.
+    + cbn [mapM bind]. rewrite (mapM_div_z _ M). split; reflexivity.
+    + rewrite mapM_div_z by discriminate. split; reflexivity.
+Qed.
+
 (* ---------- the specification-level sequences ---------- *)
 Variable t : tridiag.
 Variable r : list T.
